@@ -461,6 +461,16 @@ class Totality:
                     conds = self.dominating_conditions(view, block)
                 if not cond_holds(req["cond"], req["truth"], conds):
                     return False
+            if "receiver_from" in req:
+                # the value the site consumes (first argument of unwrap / expect ...) is the direct result of a call
+                # to the named function, e.g. `write!(buffer, ..)` = Write::write_fmt
+                t = view.blocks[block]["term"]
+                if t["t"] != "call" or not t["args"]:
+                    return False
+                ch = view.chase(t["args"][0])
+                if ch[0] != "call" or (ir.callee_name(ch[1]["fn"]) or "") != req["receiver_from"] and \
+                        ch[1]["fn"].get("def") != req["receiver_from"]:
+                    return False
         return True
 
     @staticmethod
@@ -473,9 +483,12 @@ class Totality:
         self._row_owner = fn_key
         root = self._root_fn(fn_key)
         owners = [fn_key] + [k for k in self.table if k != fn_key and self._root_fn(k) == root]
+        base = re.sub(r"~\d+$", "", what)
         for owner in owners:
             for r in self.table.get(owner) or ():
-                if r.get("kind", kind) == kind and r.get("what") == what:
+                if r.get("kind", kind) != kind:
+                    continue
+                if r.get("what") == what or (r.get("any_ordinal") and r.get("what") == base):
                     self._row_owner = owner
                     return r
         return None
